@@ -1,5 +1,6 @@
 """C06 — lifecycle: setup once, iterations, LIFO cleanups exactly once, teardown last."""
 import vlib
+import runtraces
 import lifecycle
 
 
@@ -31,6 +32,9 @@ def run(tier, seed, replay_rows=None):
             (None, "Gen_Lifecycle_2x3.cfg", 2, 3, 300 if q else 4000, 1)]
     lifecycle.run_property(ck, cfgs, normalize, concern, replay_rows=replay_rows)
     ck.exhaustive = not q
+    if replay_rows is None:
+        # run-level clauses of this property on whole-run traces (F1Run observer)
+        runtraces.check(ck, "C06")
     return ck.finish()
 
 
